@@ -291,6 +291,78 @@ fn c18big(seed: u64) -> i32 {
     }
 }
 
+/// A quad vector with rank/select support spanning several superblocks (2048 / 4096 symbols each), three
+/// real threads issuing mostly `select` of the same symbols at far-apart ranks on the shared value: what a
+/// cache, hint or cursor kept inside the select path would have to survive.
+fn c18quad(seed: u64) -> i32 {
+    use crate::ds::{Flat, Sym};
+    let mut rng = stream(run_seed(seed, "C18-miri-quad", 0), "workload");
+    let kind = [Flat::RSQVector256, Flat::RSQVector512][(seed % 2) as usize];
+    let sb = if kind == Flat::RSQVector256 { 2048 } else { 4096 };
+    let n = sb * 3 + sb / 4 + rng.usize_below(sb / 2);
+    // every symbol occurs in every superblock, with different frequencies
+    let syms: Vec<u8> = (0..n)
+        .map(|_| match rng.below(32) {
+            0..=15 => 0u8,
+            16..=25 => 1,
+            26..=30 => 2,
+            _ => 3,
+        })
+        .collect();
+    let mut occ = [0usize; 4];
+    for &c in &syms {
+        occ[c as usize] += 1;
+    }
+    let spec = Spec::Quads { kind, syms };
+    let x = match crate::core::catch(|| spec.build()) {
+        Ok(x) => x,
+        Err(_) => return 0,
+    };
+    let mut qs: Vec<Q> = vec![];
+    for k in 0..42u64 {
+        let c = (k % 4) as usize;
+        qs.push(match rng.below(8) {
+            0 => Q::Rank(Sym(c as u128), rng.usize_below(n + 1)),
+            1 => Q::Get(rng.usize_below(n)),
+            // ranks spread over all superblocks (ranks are 1-based for quad structures; out-of-range ones answer None)
+            _ => Q::Select(Sym(c as u128), rng.usize_below(occ[c] + 2)),
+        });
+    }
+    let batch: Vec<(Q, A)> = qs
+        .into_iter()
+        .map(|q| {
+            let a = crate::core::catch(|| x.answer(&q)).unwrap_or_else(A::Panic);
+            (q, a)
+        })
+        .filter(|(_, a)| !matches!(a, A::Panic(_)))
+        .collect();
+    println!("c18quad scenario seed={seed} structure={} n={n} occs={occ:?} queries={}", x.kind(), batch.len());
+    let ok = std::sync::atomic::AtomicBool::new(true);
+    let nq = batch.len();
+    std::thread::scope(|s| {
+        for j in 0..3usize {
+            let x = &x;
+            let batch = &batch;
+            let ok = &ok;
+            s.spawn(move || {
+                for k in 0..nq {
+                    let (q, e) = &batch[(j * 13 + k) % nq];
+                    let got = crate::core::catch(|| x.answer(q)).unwrap_or_else(A::Panic);
+                    if &got != e {
+                        println!("C18-MISMATCH {} thread {j} query {q:?} answered {got:?}, a single thread gets {e:?}", x.kind());
+                        ok.store(false, std::sync::atomic::Ordering::SeqCst);
+                    }
+                }
+            });
+        }
+    });
+    if ok.load(std::sync::atomic::Ordering::SeqCst) {
+        0
+    } else {
+        1
+    }
+}
+
 fn trees_real(prop: &str, seed: u64) -> i32 {
     let rs = run_seed(seed, &format!("{prop}-miri"), 0);
     let mut case = trees::gen_case(prop, rs, Tier::Quick);
@@ -354,6 +426,7 @@ fn main() {
         "c18" => c18(seed),
         "c18all" => c18all(seed),
         "c18big" => c18big(seed),
+        "c18quad" => c18quad(seed),
         "c02" => trees_real("C02", seed),
         "c03" => trees_real("C03", seed),
         "c09" => c09(seed),
